@@ -96,3 +96,16 @@ chk('C17', 'exploration',
     'runtime monitoring: naive-scan reference model compared after every '
     'operation + deep snapshots of inputs',
     'DESIGN.md section 4 (C17)')
+chk('C18', 'exploration',
+    'The classifications produced by the real TestStatsTasks, TestStatsTests '
+    'and TestStatsTestsByLabels on thousands of generated collections (any '
+    'statuses, with/without result lists of real TestResult objects with '
+    'chosen verdicts and string label dictionaries, repeated names, 1-3 '
+    'requested labels in both orders) are compared with a recount made from '
+    'the inputs: multiset of names per status/outcome, OK+KO=total per '
+    'combination, conservation of the total, missing count, verdicts, '
+    'documented exception for unknown labels; inputs digested.',
+    'label values are strings; result lists hold TestResult objects; vacuous '
+    'summaries not claimed',
+    'runtime monitoring: recount oracle over generated collections',
+    'DESIGN.md section 4 (C18)')
